@@ -30,15 +30,15 @@ Theorem C11_query : forall num T g kd s m q rad k res,
 Proof. exact c11_query_spec. Qed.
 Print Assumptions C11_query.
 
-Theorem C11_query_radius : forall num T t g kd s m q rad r res,
-  c11_query_radius num T t g kd s m q rad r = Some res ->
+Theorem C11_query_radius : forall num T pi t g kd s m q rad r res,
+  c11_query_radius num T pi t g kd s m q rad r = Some res ->
   0 <= r /\
   exists pq, c11_prepare num T s m q rad = Some pq /\ length res = length pq /\
     forall i p l, nth_error pq i = Some p -> nth_error res i = Some l ->
       NoDup (map snd l) /\
       forall d j, In (d, j) l <->
         nth_error (c11_keys m (c11_tree_coords num g kd s) p) j = Some d
-        /\ d <= c11_rkey m (c11_radius_units num T t s r).
+        /\ d <= c11_rkey m (c11_radius_units num T pi t s r).
 Proof. exact c11_query_radius_spec. Qed.
 Print Assumptions C11_query_radius.
 
@@ -103,6 +103,17 @@ Print Assumptions C11_chord_arc.
 Theorem C11_arc_is_angle : forall c, (0 <= c <= 2 -> 0 <= c11_arc c <= PI /\ 2 * sin (c11_arc c / 2) = c)%R.
 Proof. exact c11_arc_angle. Qed.
 Print Assumptions C11_arc_is_angle.
+
+(* the great-circle radius of a ball tree on spherical coordinates is read in degrees and clamped at
+   the half turn (np.pi), which changes no answer because no arc exceeds PI *)
+Theorem C11_radius_units_ball_spherical : forall num T pi r,
+  c11_radius_units num T pi C11Ball C11Spherical r = Z.min (c11_deg2rad num r) pi.
+Proof. exact c11_radius_units_ball_spherical. Qed.
+Print Assumptions C11_radius_units_ball_spherical.
+
+Theorem C11_radius_clamp : forall c r, (0 <= c <= 2 -> (c11_arc c <= r <-> c11_arc c <= Rmin r PI))%R.
+Proof. exact c11_radius_clamp. Qed.
+Print Assumptions C11_radius_clamp.
 
 (* either side of the antimeridian, and at the poles *)
 Theorem C11_antimeridian : forall p1 l1 p2 l2, (c11_hav p1 (l1 + 2 * PI) p2 l2 = c11_hav p1 l1 p2 l2)%R.
